@@ -320,7 +320,7 @@ def spaces(tier):
                   "same package, packages four levels deep, equal timestamps across tasks, cond-out or a package directory below it being a "
                   "symbolic link to another disk; gc and gc --dry-run", depth=4, goals=["more than 100 recorded versions"]),
             Space("catalogue-12", make(), "every subset of a 12-entry catalogue (2^12 trees) x --dry-run x --verbose x working directory "
-                  "{project root, a sub-directory}", depth=9, goals=goals, outside=["symlinks placed by hand", "deeper nesting than 2 packages"])]
+                  "{project root, a sub-directory}", depth=9, goals=goals, outside=["symlinks placed by hand inside package directories"])]
 
 
 def lemmas(tier):
